@@ -1,0 +1,155 @@
+//! Read-only inspection hooks for external verification harnesses.
+//!
+//! Everything in this module is only compiled with the `verif-hooks` feature and never changes the
+//! broker's behaviour: a [`VerifSnapshot`] is a plain-data, sorted copy of all internal maps of the
+//! broker, requested through [`BrokerHandle::verif_snapshot`](crate::BrokerHandle::verif_snapshot).
+
+use std::cell::RefCell;
+
+/// Raw bytes of a UUID (cookie, object / service UUID or type id).
+pub type Uuid = [u8; 16];
+
+/// Snapshot of all internal state of a [`Broker`](crate::Broker).
+#[derive(Debug, Clone, PartialEq, Eq, Default)]
+pub struct VerifSnapshot {
+    pub conns: Vec<VerifConn>,
+    pub obj_uuids: Vec<(Uuid, Uuid)>,
+    pub objs: Vec<VerifObject>,
+    pub svc_uuids: Vec<VerifServiceEntry>,
+    pub svcs: Vec<VerifService>,
+    pub function_calls: Vec<VerifCall>,
+    pub function_calls_next: u32,
+    pub channels: Vec<VerifChannel>,
+    pub bus_listeners: Vec<VerifBusListener>,
+    pub statistics: Option<VerifGauges>,
+    pub introspection: Option<Vec<VerifIntrospectionEntry>>,
+    pub query_introspection: Vec<(u32, Uuid)>,
+}
+
+#[derive(Debug, Clone, PartialEq, Eq, Default)]
+pub struct VerifConn {
+    pub id: usize,
+    pub version: (u32, u32),
+    /// false once the connection's queue has been closed (its task is gone).
+    pub queue_open: bool,
+    pub objects: Vec<Uuid>,
+    pub events: Vec<(Uuid, Vec<u32>)>,
+    pub all_events: Vec<Uuid>,
+    pub subscriptions: Vec<Uuid>,
+    pub senders: Vec<Uuid>,
+    pub receivers: Vec<Uuid>,
+    pub bus_listeners: Vec<Uuid>,
+    /// (caller serial, callee serial, callee connection)
+    pub calls: Vec<(u32, u32, usize)>,
+}
+
+#[derive(Debug, Clone, PartialEq, Eq, Default)]
+pub struct VerifObject {
+    pub uuid: Uuid,
+    pub cookie: Uuid,
+    pub conn: usize,
+    pub svcs: Vec<Uuid>,
+}
+
+#[derive(Debug, Clone, PartialEq, Eq, Default)]
+pub struct VerifServiceEntry {
+    pub cookie: Uuid,
+    pub object_uuid: Uuid,
+    pub object_cookie: Uuid,
+    pub service_uuid: Uuid,
+    pub version: u32,
+    pub type_id: Option<Uuid>,
+    pub subscribe_all: Option<bool>,
+}
+
+#[derive(Debug, Clone, PartialEq, Eq, Default)]
+pub struct VerifService {
+    pub object_uuid: Uuid,
+    pub service_uuid: Uuid,
+    pub cookie: Uuid,
+    pub object_cookie: Uuid,
+    pub function_calls: Vec<u32>,
+    pub events: Vec<(u32, Vec<usize>)>,
+    pub all_events: Vec<usize>,
+    pub subscriptions: Vec<usize>,
+}
+
+#[derive(Debug, Clone, PartialEq, Eq, Default)]
+pub struct VerifCall {
+    pub serial: u32,
+    pub caller_serial: u32,
+    pub caller_conn: usize,
+    pub callee_obj: Uuid,
+    pub callee_svc: Uuid,
+    pub aborted: bool,
+}
+
+#[derive(Debug, Clone, Copy, PartialEq, Eq)]
+pub enum VerifChannelEnd {
+    Unclaimed,
+    Claimed { owner: usize, capacity: u32 },
+    Closed,
+}
+
+#[derive(Debug, Clone, PartialEq, Eq)]
+pub struct VerifChannel {
+    pub cookie: Uuid,
+    pub sender: VerifChannelEnd,
+    pub receiver: VerifChannelEnd,
+}
+
+#[derive(Debug, Clone, PartialEq, Eq, Default)]
+pub struct VerifBusListener {
+    pub cookie: Uuid,
+    pub conn: usize,
+    /// Debug rendering of each filter, sorted.
+    pub filters: Vec<String>,
+    /// 0 = current, 1 = new, 2 = all
+    pub scope: Option<u8>,
+    pub matches_all_objects: bool,
+    pub matches_specific_services: bool,
+}
+
+#[derive(Debug, Clone, Copy, PartialEq, Eq, Default)]
+pub struct VerifGauges {
+    pub num_connections: usize,
+    pub num_objects: usize,
+    pub num_services: usize,
+    pub num_channels: usize,
+    pub num_bus_listeners: usize,
+    pub num_introspections: Option<usize>,
+}
+
+#[derive(Debug, Clone, PartialEq, Eq, Default)]
+pub struct VerifIntrospectionEntry {
+    pub type_id: Uuid,
+    /// registered connections in the entry's internal order (the order the random pick indexes)
+    pub conn_ids: Vec<usize>,
+    pub conn_id_idxs: Vec<(usize, usize)>,
+    pub has_introspection: bool,
+    pub queried: Option<(usize, u32)>,
+    pub pending: Vec<(usize, u32)>,
+}
+
+thread_local! {
+    static CHOOSER: RefCell<Option<Box<dyn FnMut(usize, usize) -> usize>>> = const { RefCell::new(None) };
+}
+
+/// Installs (or removes) a function that replaces the broker's random pick of a connection when
+/// forwarding an introspection query: it is called with the number of candidates and the index the
+/// random number generator chose, and returns the index to use. Thread-local.
+pub fn set_random_override(f: Option<Box<dyn FnMut(usize, usize) -> usize>>) {
+    CHOOSER.with(|c| *c.borrow_mut() = f);
+}
+
+#[cfg(feature = "introspection")]
+pub(crate) fn choose(len: usize, idx: usize) -> usize {
+    CHOOSER.with(|c| match c.borrow_mut().as_mut() {
+        Some(f) => {
+            let i = f(len, idx);
+            assert!(i < len, "verif random override out of range");
+            i
+        }
+        None => idx,
+    })
+}
